@@ -71,13 +71,15 @@ pub struct Ctx {
     pub level: Mutex<&'static str>,
     replay_outcome: Mutex<Option<Result<String, String>>>,
     pub inconclusive: Mutex<Option<String>>,
+    /// shrink budget for the next pbt() calls (expensive cases set it low)
+    pub shrink_iters: std::sync::atomic::AtomicU32,
 }
 
 impl Ctx {
     pub fn new(id: &str, tier: Tier, seed: u64, root: PathBuf, replay: Option<(String, Value)>) -> Ctx {
         let jobs = std::env::var("VERIF_JOBS").ok().and_then(|s| s.parse().ok()).unwrap_or_else(|| std::thread::available_parallelism().map(|n| n.get()).unwrap_or(8)).max(1);
         let known = load_known(&root, id);
-        Ctx { id: id.into(), tier, seed, jobs, root, replay, start: Instant::now(), stats: Default::default(), distinct: Default::default(), violations: Default::default(), known, known_fired: Default::default(), notes: Default::default(), extra: Default::default(), assumptions: Default::default(), level: Mutex::new("exploration"), replay_outcome: Mutex::new(None), inconclusive: Mutex::new(None) }
+        Ctx { id: id.into(), tier, seed, jobs, root, replay, start: Instant::now(), stats: Default::default(), distinct: Default::default(), violations: Default::default(), known, known_fired: Default::default(), notes: Default::default(), extra: Default::default(), assumptions: Default::default(), level: Mutex::new("exploration"), replay_outcome: Mutex::new(None), inconclusive: Mutex::new(None), shrink_iters: std::sync::atomic::AtomicU32::new(3000) }
     }
     pub fn quick(&self) -> bool { self.tier == Tier::Quick }
     /// Pick a count by tier.
@@ -179,7 +181,7 @@ impl Ctx {
                 sc.spawn(move || {
                     let my = cases / workers as u64 + if (w as u64) < cases % workers as u64 { 1 } else { 0 };
                     if my == 0 { return; }
-                    let cfg = Config { cases: my as u32, failure_persistence: None, max_shrink_iters: 3000, max_global_rejects: 65536, verbose: 0, ..Config::default() };
+                    let cfg = Config { cases: my as u32, failure_persistence: None, max_shrink_iters: self.shrink_iters.load(Ordering::Relaxed), max_global_rejects: 65536, verbose: 0, ..Config::default() };
                     let mut runner = TestRunner::new_with_rng(cfg, TestRng::from_seed(RngAlgorithm::ChaCha, &self.derive_seed(sub, w)));
                     let failed = std::cell::Cell::new(false);
                     let evals = std::cell::Cell::new(0u64); let nt = std::cell::Cell::new(0u64); let excluded = std::cell::Cell::new(0u64);
@@ -196,7 +198,11 @@ impl Ctx {
                                 } Ok(()) }
                             Err(m) => {
                                 if self.known_match(&m).is_some() { if !failed.get() { excluded.set(excluded.get() + 1); evals.set(evals.get() + 1); let mut kf = self.known_fired.lock().unwrap(); *kf.entry(self.known_match(&m).unwrap().signature.clone()).or_default() += 1; } return Ok(()); }
-                                if !failed.get() { evals.set(evals.get() + 1); failed.set(true); stop.store(true, Ordering::Relaxed); }
+                                if !failed.get() {
+                                    // only the first worker that fails shrinks; the others stand down
+                                    if stop.swap(true, Ordering::SeqCst) { return Ok(()); }
+                                    evals.set(evals.get() + 1); failed.set(true);
+                                }
                                 Err(TestCaseError::fail(m)) }
                         }
                     });
